@@ -1001,8 +1001,9 @@ func (ts *Service) handleUpdateTask(w http.ResponseWriter, r *http.Request) {
 	}
 
 	associationChanged := original.ID != updated.ID || original.TemplateID != updated.TemplateID
-	if associationChanged && updated.TemplateID != "" {
-		// Associate before saving, see handleCreateTask.
+	if updated.TemplateID != "" {
+		// Associate before saving, see handleCreateTask. Also when nothing changed: writing the association
+		// again is harmless, and it is missing when the template was deleted and created again.
 		if err := ts.templates.AssociateTask(updated.TemplateID, updated.ID); err != nil {
 			httpd.HttpError(w, fmt.Sprintf("failed to associate task with template: %s", err), true, http.StatusInternalServerError)
 			return
